@@ -128,10 +128,10 @@ CHECKS["C01"] = dict(
                "writer side with scaled parameters; encrypted 3-level file (1 GiB+1) is not run (time)",
     design=DESIGN,
     gen=dict(
-        quick=[gen("up,readat,seq,scaled", "quick", FT_SPLITS="quick", FT_SCSPLITS="rot", FT_CAPS="0")],
-        thorough=[gen("up,readat,seq,scaled", "thorough", FT_SPLITS="all", FT_SCSPLITS="all", FT_CAPS="0", depth=4),
+        quick=[gen("up,readat,seq,scaled", "quick", FT_SPLITS="quick", FT_SCSPLITS="rot", FT_SCALED="small", FT_CAPS="0")],
+        thorough=[gen("up,readat,seq,scaled", "thorough", FT_SPLITS="thorough", FT_SCSPLITS="all", FT_CAPS="0", depth=4),
                   gen("scaled", "quick", FT_SCALED="deep", FT_SCSPLITS="rot", name="scaled-deep"),
-                  walks("thorough", 150, 10, 1500, FT_CAPS="0"),
+                  walks("thorough", 60, 10, 600, FT_CAPS="0"),
                   gen("up,readat,seq", "bigplain", FT_SPLITS="bigone", FT_CAPS="0", FT_BIGONE="1", name="big-plain")]),
     post_gen=None,   # set below (per tier sampling)
     judge=JUDGE,
@@ -211,5 +211,5 @@ def _tiered(q, t):
     return lambda scs, seed, tier: (mq if tier == "quick" else mt)(scs, seed, tier)
 
 
-CHECKS["C01"]["post_gen"] = _tiered((45, 16), (0, 150))
-CHECKS["C07"]["post_gen"] = _tiered((80, 24), (0, 200))
+CHECKS["C01"]["post_gen"] = _tiered((45, 16), (300, 60))
+CHECKS["C07"]["post_gen"] = _tiered((80, 24), (0, 150))
